@@ -72,6 +72,62 @@ pub struct Cmd {
     /// keep temporary chunk files (merge(false))
     pub lib_mem_gb: Option<f64>,
     pub lib_keep_temps: bool,
+    /// how the options are spelled on the command line: two bits per option, in the order they are
+    /// pushed (0 = "-k 5", 1 = "--k-size 5", 2 = "--k-size=5", 3 = "-k5"); flags use bit 0 only
+    #[serde(default)]
+    pub spell: u64,
+    /// leave out every option whose value is its documented default
+    #[serde(default)]
+    pub omit_defaults: bool,
+    /// replace the value of one option (named by its short form) by arbitrary text (refusal tests)
+    #[serde(default)]
+    pub override_opt: Option<(String, String)>,
+}
+
+/// pushes options in the generated spelling
+struct ArgW {
+    a: Vec<String>,
+    spell: u64,
+    omit: bool,
+    n: u32,
+    over: Option<(String, String)>,
+}
+
+impl ArgW {
+    fn style(&mut self) -> u64 {
+        let s = (self.spell >> (2 * (self.n % 32))) & 3;
+        self.n += 1;
+        s
+    }
+    /// an option with a value; `default` = its documented default rendered as text
+    fn opt(&mut self, short: &str, long: &str, val: &str, default: Option<&str>) {
+        let st = self.style();
+        let over = self.over.clone();
+        let (val, forced) = match &over {
+            Some((o, v)) if o == short => (v.as_str(), true),
+            _ => (val, false),
+        };
+        if self.omit && default == Some(val) && !forced {
+            return;
+        }
+        match st {
+            0 => self.a.extend([short.to_string(), val.to_string()]),
+            1 => self.a.extend([long.to_string(), val.to_string()]),
+            2 => self.a.push(format!("{}={}", long, val)),
+            // "-k5" cannot carry a value that starts with '-' (stdin marker) or is empty
+            _ if !val.is_empty() && !val.starts_with('-') => self.a.push(format!("{}{}", short, val)),
+            _ => self.a.extend([short.to_string(), val.to_string()]),
+        }
+    }
+    fn flag(&mut self, short: Option<&str>, long: &str, on: bool) {
+        let st = self.style();
+        if on {
+            self.a.push(match short {
+                Some(s) if st & 1 == 0 => s.to_string(),
+                _ => long.to_string(),
+            });
+        }
+    }
 }
 
 impl Cmd {
@@ -100,6 +156,9 @@ impl Cmd {
             acgt: false,
             lib_mem_gb: None,
             lib_keep_temps: false,
+            spell: 0,
+            omit_defaults: false,
+            override_opt: None,
         }
     }
 
@@ -118,57 +177,68 @@ impl Cmd {
     }
 
     pub fn args(&self, input: &str, alt: Option<&str>, out: &str) -> Vec<String> {
-        let mut a: Vec<String> = Vec::new();
+        let mut w = ArgW { a: Vec::new(), spell: self.spell, omit: self.omit_defaults, n: 0, over: self.override_opt.clone() };
         let t = self.threads.to_string();
+        let k = self.k.to_string();
         match self.sub {
             Sub::Oligo => {
-                a.extend(["comp", "oligo", "-i", if self.stdin { "-" } else { input }, "-o", out].map(String::from));
-                a.extend(["-k".to_string(), self.k.to_string(), "-p".into(), self.preset.name().into(), "-t".into(), t]);
-                if self.counts {
-                    a.push("-c".into());
-                }
-                if self.header {
-                    a.push("-H".into());
-                }
+                w.a.extend(["comp", "oligo"].map(String::from));
+                w.opt("-i", "--input", if self.stdin { "-" } else { input }, None);
+                w.opt("-o", "--output", out, None);
+                w.opt("-k", "--k-size", &k, Some("3"));
+                w.opt("-p", "--preset", self.preset.name(), Some("spc"));
+                w.opt("-t", "--threads", &t, Some("0"));
+                w.flag(Some("-c"), "--counts", self.counts);
+                w.flag(Some("-H"), "--header", self.header);
             }
             Sub::Cgr | Sub::KCgr => {
-                a.extend(["comp", "cgr", "-i", input, "-o", out].map(String::from));
-                a.extend(["-t".to_string(), t]);
+                w.a.extend(["comp", "cgr"].map(String::from));
+                w.opt("-i", "--input", input, None);
+                w.opt("-o", "--output", out, None);
+                w.opt("-t", "--threads", &t, Some("0"));
                 if self.sub == Sub::KCgr {
-                    a.extend(["-k".to_string(), self.k.to_string()]);
-                    if self.counts {
-                        a.push("-c".into());
-                    }
+                    w.opt("-k", "--k-size", &k, None);
+                    w.flag(Some("-c"), "--counts", self.counts);
                 }
                 if let Some(v) = self.vec_size {
-                    a.extend(["-v".to_string(), v.to_string()]);
+                    w.opt("-v", "--vec-size", &v.to_string(), None);
                 }
             }
             Sub::Cov => {
-                a.extend(["cov", "-i", input, "-o", out].map(String::from));
-                a.extend(["-k".to_string(), self.k.to_string(), "-p".into(), self.preset.name().into(), "-t".into(), t]);
-                a.extend(["-s".to_string(), self.bin_size.to_string(), "-c".into(), self.bin_count.to_string(), "-m".into(), self.memory.to_string()]);
-                if self.counts {
-                    a.push("--counts".into());
-                }
+                w.a.push("cov".into());
+                w.opt("-i", "--input", input, None);
+                w.opt("-o", "--output", out, None);
+                w.opt("-k", "--k-size", &k, Some("15"));
+                w.opt("-p", "--preset", self.preset.name(), Some("spc"));
+                w.opt("-t", "--threads", &t, Some("0"));
+                w.opt("-s", "--bin-size", &self.bin_size.to_string(), Some("16"));
+                w.opt("-c", "--bin-count", &self.bin_count.to_string(), Some("16"));
+                w.opt("-m", "--memory", &self.memory.to_string(), Some("6"));
+                w.flag(None, "--counts", self.counts);
                 if self.alt {
-                    a.extend(["-a".to_string(), alt.unwrap_or(input).to_string()]);
+                    w.opt("-a", "--alt-input", alt.unwrap_or(input), None);
                 }
             }
             Sub::Min => {
-                a.extend(["min", "-i", input, "-o", out].map(String::from));
-                a.extend(["-m".to_string(), self.m.to_string(), "-w".into(), self.w.to_string(), "-t".into(), t]);
-                a.extend(["-p".to_string(), if self.m2s { "m2s" } else { "s2m" }.to_string()]);
+                w.a.push("min".into());
+                w.opt("-i", "--input", input, None);
+                w.opt("-o", "--output", out, None);
+                w.opt("-m", "--m-size", &self.m.to_string(), Some("10"));
+                w.opt("-w", "--w-size", &self.w.to_string(), Some("0"));
+                w.opt("-t", "--threads", &t, Some("0"));
+                w.opt("-p", "--preset", if self.m2s { "m2s" } else { "s2m" }, Some("s2m"));
             }
             Sub::Ctr => {
-                a.extend(["ctr", "-i", input, "-o", out].map(String::from));
-                a.extend(["-k".to_string(), self.k.to_string(), "-m".into(), self.memory.to_string(), "-t".into(), t]);
-                if self.acgt {
-                    a.push("--acgt".into());
-                }
+                w.a.push("ctr".into());
+                w.opt("-i", "--input", input, None);
+                w.opt("-o", "--output", out, None);
+                w.opt("-k", "--k-size", &k, None);
+                w.opt("-m", "--memory", &self.memory.to_string(), Some("6"));
+                w.opt("-t", "--threads", &t, Some("0"));
+                w.flag(Some("-a"), "--acgt", self.acgt);
             }
         }
-        a
+        w.a
     }
 
     /// default square size as documented for `comp cgr`: 1 for whole sequences, k^2 in k-mer mode
